@@ -317,7 +317,7 @@ pub fn run(ctx: &Ctx) -> Verdict {
         "build variant: std".into(),
     ];
     v.subs.push(super::replay_corpus(ctx));
-    let n = ctx.tier.pick(50_000, 1_000_000);
+    let n = ctx.tier.pick(250_000, 6_000_000);
     let strat = (
         gen::scenario(cfg()),
         vec(any::<u8>(), 48),
@@ -328,6 +328,7 @@ pub fn run(ctx: &Ctx) -> Verdict {
     v.subs.push(vcore::run_enumerated(ctx, "boundary-grid", grid(), |cell| {
         check(&grid_scenario(cell)).map(|i| CaseInfo::new(true).class_if(!i.classes.is_empty(), i.classes[0]))
     }));
+    v.subs.extend(super::variant_reports(ctx, &["nostd-spin", "nostd-nomutex"]));
     v
 }
 
